@@ -8,6 +8,7 @@ mod psl;
 mod rp;
 mod rpid;
 mod stores;
+mod u2f;
 mod util;
 
 fn main() {
@@ -24,6 +25,7 @@ fn main() {
         "psl" => psl::main(&args),
         "rpid" => rpid::main(&args),
         "stores" => stores::main(&args),
+        "u2f" => u2f::main(&args),
         other => {
             eprintln!("pkverif: unknown domain {other}");
             std::process::exit(2);
